@@ -351,12 +351,16 @@ pub fn i6_check(w: &mut World) {
                     v.push((props, format!("stuck: child {i} self-woke during its last poll and was not polled again")));
                 }
             }
+            Last::Item if w.root.is_none() && i == 0 => {
+                // engine C: the source of a concurrent stream is legitimately left alone while the consumer
+                // applies back-pressure; whether the operation as a whole may be Pending is decided below
+            }
             Last::Item => {
                 let props: Vec<&'static str> = if any_never { vec!["C01", "C20"] } else { vec!["C01"] };
                 v.push((props, format!("stuck: stream child {i} yielded an item and is never polled again although the combinator is Pending")));
             }
             Last::Never => {
-                v.push((vec!["C20"], format!("stuck: child {i} was never polled")));
+                v.push((vec!["C01", "C20"], format!("stuck: child {i} was never polled although the combinator is Pending with no wake-up outstanding")));
             }
         }
     }
@@ -364,7 +368,7 @@ pub fn i6_check(w: &mut World) {
         // every active leaf is finished, yet the combinator did not resolve: the per-poll model has already
         // reported the poll in which it should have; keep a generic note for engines without node models
         if w.root.is_none() {
-            v.push((vec!["C01"], "stuck: all children finished but the operation is Pending with no wake-up outstanding".into()));
+            v.push((vec!["C01"], "stuck: no child is blocked forever, yet the operation is Pending with no wake-up outstanding".into()));
         }
     }
     for (p, m) in v {
